@@ -177,8 +177,8 @@ def stock_configs(draw, classes=("simple", "idsm", "sdsm_manual", "sdsm_lapack")
     cfg = {"grid": grid, "extra": draw(extras(max_extra=max_extra)), "cls": draw(st.sampled_from(list(classes)))}
     U = universe_of(cfg)
     n = gen._size(U, gen.uletters(U))
-    pos = st.one_of(st.sampled_from([0.0, 1.0, 10.0]), st.floats(0.0, 100.0))
-    sgn = st.one_of(st.sampled_from([0.0, 1.0, -1.0]), st.floats(-100.0, 100.0))
+    pos = st.one_of(st.sampled_from([0.0, 1.0, 10.0]), st.floats(1e-6, 100.0))
+    sgn = st.one_of(st.sampled_from([0.0, 1.0, -1.0]), st.floats(1e-6, 100.0), st.floats(-100.0, -1e-6))
     if cfg["cls"] == "simple":
         cfg["driver"] = draw(st.lists(sgn if signed else pos, min_size=n, max_size=n))
         cfg["outflow"] = draw(st.lists(sgn if signed else pos, min_size=n, max_size=n))
